@@ -119,3 +119,25 @@ Example resume_sound_loss_nonvacuous :
   check (fst (load 8 10%Z fs (opened 8 2) r)) (valid_after 8 fs (repeat true 8) [2] touched)
   = valid_after 8 fs (repeat true 8) [2] touched.
 Proof. vm_compute. split; reflexivity. Qed.
+
+(* crash -> load -> the client saves the session before the requested check has completed -> restart.
+   resave_unchecked is what that intermediate save does to the stored record (Model.v); whether the stored
+   uncertain list survives it is probed on the compiled code (c10_unc_kept_while_unchecked). *)
+Theorem resume_sound_resave : forall n ld fs r cl now valid,
+  (0 <? Params.c10_unc_kept_while_unchecked)%N = true ->
+  load n ld fs (opened n (length fs)) (resave_unchecked r cl now) = load n ld fs (opened n (length fs)) r /\
+  check (fst (load n ld fs (opened n (length fs)) (resave_unchecked r cl now))) valid =
+  check (fst (load n ld fs (opened n (length fs)) r)) valid.
+Proof. exact ProofsSound.resume_sound_resave. Qed.
+Print Assumptions resume_sound_resave.
+
+(* as long as the save erases the list in that situation, the history resurrects a lost piece *)
+Theorem resume_sound_resave_refuted :
+  (Params.c10_unc_kept_while_unchecked =? 0)%N = true ->
+  exists n ld fs r valid i,
+    snd (load n ld fs (opened n (length fs)) r) = Loaded /\
+    nth i (check (fst (load n ld fs (opened n (length fs)) r)) valid) false = false /\
+    nth i (check (fst (load n ld fs (opened n (length fs)) (resave_unchecked r [] 1%Z))) valid) false = true /\
+    nth i valid false = false.
+Proof. exact ProofsSound.resume_sound_resave_refuted. Qed.
+Print Assumptions resume_sound_resave_refuted.
